@@ -322,6 +322,10 @@ def _variants():
         V("is-pointfree-inclusive-upper", replace_expr(MP, "MeshPatt.is_pointfree", "lower <= self.pattern[idx] < upper", "lower <= self.pattern[idx] <= upper"), "fire", "C18-G1"),
         V("is-pointfree-index-range", replace_expr(MP, "MeshPatt.is_pointfree", "range(left, right)", "range(left, right + 1)"), "fire", "C18-G1"),
         V("is-pointfree-swapped-axes", replace_stmt(MP, "MeshPatt.is_pointfree", "(left, lower), (right, upper) = (lower_left, upper_right)", "(lower, left), (upper, right) = (lower_left, upper_right)"), "fire", "C18-G1"),
+        V("split-column-strict", replace_expr(MP, "MeshPatt._add_point_base_shading", "s_x <= x", "s_x < x"), "fire", "C18-P1"),
+        V("split-row-uses-x", replace_expr(MP, "MeshPatt._add_point_base_shading", "s_y >= y", "s_y >= x"), "fire", "C18-P1"),
+        V("new-perm-values-strict", replace_expr(MP, "MeshPatt._add_point_new_perm", "val if val < y else val + 1", "val if val <= y else val + 1", which=1), "fire", "C18-P1"),
+        V("new-perm-inserts-x", replace_expr(MP, "MeshPatt._add_point_new_perm", "(y,)", "(x,)"), "fire", "C18-P1"),
         V("lemma-skips-wrong-column", replace_expr(MP, "MeshPatt.north_east_shading_lemma_conditions", "n_x not in (x - 1, x)", "n_x not in (x, x + 1)"), "fire", "C18-N1"),
         V("lemma-both-to-either", replace_expr(MP, "MeshPatt.north_east_shading_lemma_conditions", "all(((x, y - 1) in self.shading, (x - 1, y) in self.shading))", "any(((x, y - 1) in self.shading, (x - 1, y) in self.shading))"), "fire", "C18-N1"),
         V("lemma-propagation-reversed", replace_expr(MP, "MeshPatt.north_east_shading_lemma_conditions", "(n_x, y - 1) in self.shading and (n_x, y) not in self.shading", "(n_x, y) in self.shading and (n_x, y - 1) not in self.shading"), "fire", "C18-N1"),
@@ -450,3 +454,94 @@ def run(ctx: Ctx) -> None:  # noqa: F811
 
 FLOORS["C18-G1"] = 2
 EXPLANATION = EXPLANATION.replace("_add_point_base_shading's splitting, is_shaded / is_pointfree region arithmetic,", "(d) the region tests is_shaded / is_pointfree state the geometry of cells and lines (G1). NOT decided: _add_point_base_shading's splitting,")
+
+
+# ------------------------------------------------------------------ P1: point insertion splits the grid
+
+
+def rule_p1(ctx: Ctx) -> None:
+    """Adding a point in cell (x, y) inserts the vertical line x and the horizontal line y: an old column c becomes
+    c (if c < x), c + 1 (if c > x) or both (c == x, the split column); rows alike; a shaded cell is replaced by all
+    combinations.  The new permutation has the new value y at position x and every old value >= y raised by one."""
+    repo = ctx.repo
+    f = repo.need_method("MeshPatt", "_add_point_base_shading")
+    x, y = f.params[1], f.params[2]
+    loops = [st for st in f.body if isinstance(st, ast.For)]
+    if len(loops) != 1 or unparse(loops[0].iter) != "self.shading":
+        raise AnalysisError(f"{f.where}: loop over the shading not recognised")
+    lp = loops[0]
+    sx, sy = [unparse(e) for e in lp.target.elts]
+    ifs = [st for st in lp.body if isinstance(st, ast.If)]
+    got = {}
+    for st in ifs:
+        if st.orelse or len(st.body) != 1:
+            raise AnalysisError(f"{f.where}: split branch shape")
+        call = st.body[0].value if isinstance(st.body[0], ast.Expr) else None
+        if not (isinstance(call, ast.Call) and isinstance(call.func, ast.Attribute) and call.func.attr == "append"):
+            raise AnalysisError(f"{f.where}: split branch shape")
+        got.setdefault(unparse(call.func.value), []).append((unparse(st.test), unparse(call.args[0])))
+    if len(got) != 2:
+        raise AnalysisError(f"{f.where}: expected one list of new columns and one of new rows")
+    ok = True
+    roles = {}
+    for lst, pairs in got.items():
+        want_x = {(f"{sx} <= {x}", sx), (f"{sx} >= {x}", f"{sx} + 1")}
+        want_y = {(f"{sy} <= {y}", sy), (f"{sy} >= {y}", f"{sy} + 1")}
+        if set(pairs) == want_x:
+            roles[lst] = "x"
+        elif set(pairs) == want_y:
+            roles[lst] = "y"
+        else:
+            ok = False
+            ctx.violation("C18-P1", f, lp, f"old coordinate is mapped by {pairs}; a coordinate c splits around the new line l as: c (if c <= l) and c + 1 (if c >= l)")
+    if not ok:
+        return
+    if sorted(roles.values()) != ["x", "y"]:
+        ctx.violation("C18-P1", f, lp, "both split lists refer to the same axis")
+        return
+    lx = next(k for k, r in roles.items() if r == "x")
+    ly = next(k for k, r in roles.items() if r == "y")
+    nest = [st for st in lp.body if isinstance(st, ast.For)]
+    good = len(nest) == 1 and unparse(nest[0].iter) == lx and len(nest[0].body) == 1 and isinstance(nest[0].body[0], ast.For) and unparse(nest[0].body[0].iter) == ly
+    if good:
+        a, b = unparse(nest[0].target), unparse(nest[0].body[0].target)
+        inner = nest[0].body[0].body
+        good = len(inner) == 1 and unparse(inner[0]).endswith(f".add(({a}, {b}))") and isinstance(inner[0], ast.Expr)
+    if good:
+        ctx.ok("C18-P1", f.where, "every shaded cell is replaced by all combinations of its split columns and rows", lp, f)
+    else:
+        ctx.violation("C18-P1", f, lp, "the new shading is not the full product (new columns) x (new rows) of every old shaded cell")
+    g = repo.need_method("MeshPatt", "_add_point_new_perm")
+    gx, gy = g.params[1], g.params[2]
+    rets = [st for st in g.body if isinstance(st, ast.Return)]
+    env = {unparse(st.targets[0]): unparse(st.value) for st in g.body if isinstance(st, ast.Assign)}
+    it = next((k for k, v in env.items() if v == "iter(self.pattern)"), None)
+    if len(rets) != 1 or it is None:
+        raise AnalysisError(f"{g.where}: construction not recognised")
+    v = rets[0].value
+    if not (isinstance(v, ast.Call) and call_name(v) == ("Perm",) and isinstance(v.args[0], ast.Call) and call_name(v.args[0]) == ("chain",) and len(v.args[0].args) == 3):
+        raise AnalysisError(f"{g.where}: expected Perm(chain(before, (new,), after))")
+    before, mid, after = v.args[0].args
+
+    def part(node, src) -> bool:
+        if not (isinstance(node, ast.GeneratorExp) and len(node.generators) == 1 and not node.generators[0].ifs and unparse(node.generators[0].iter) == src):
+            return False
+        t = unparse(node.generators[0].target)
+        return unparse(node.elt) in (f"{t} if {t} < {gy} else {t} + 1", f"{t} + 1 if {t} >= {gy} else {t}")
+
+    if part(before, f"islice({it}, {gx})") and unparse(mid) == f"({gy},)" and part(after, it):
+        ctx.ok("C18-P1", g.where, f"new permutation: first {gx} entries, then the new value {gy}, then the rest; old values >= {gy} raised by one", rets[0], g)
+    else:
+        ctx.violation("C18-P1", g, rets[0], f"the new permutation is not (first {gx} entries) + ({gy},) + (rest) with every old value >= {gy} raised by one")
+
+
+_OLD_RUN4 = run
+
+
+def run(ctx: Ctx) -> None:  # noqa: F811
+    _OLD_RUN4(ctx)
+    ctx.run(rule_p1, ctx)
+
+
+FLOORS["C18-P1"] = 2
+EXPLANATION = EXPLANATION.replace("NOT decided: _add_point_base_shading's splitting,", "(e) point insertion splits columns, rows and values around the new lines (P1). NOT decided:")
